@@ -150,7 +150,7 @@ def r10_6(ctx):
     # positive control: the mutation sites of the visible fields that the audit knows
     mut = {g: sorted(short(q) for q in methods if mf[q].of(g, ('write', 'part'))) for g in VISIBLE}
     ctx.floor(R, 'methods that write or mutably borrow self.buf', len(mut['buf']), 3)
-    ctx.floor(R, 'methods that write self.transform', len(mut['transform']), 2)
+    ctx.floor(R, 'methods that write self.transform', len(mut['transform']), 1)
     ctx.floor(R, 'methods that mutate self.clip_stack', len(mut['clip_stack']), 2)
     ctx.floor(R, 'methods that mutate self.layer_stack', len(mut['layer_stack']), 1)
     ctx.note('R10.6 mutators: ' + '; '.join('%s: %s' % (g, ', '.join(x.split('::')[-1] for x in v)) for g, v in mut.items()))
